@@ -969,6 +969,50 @@ fn check_fix(c: &FixCase, rec: &mut Rec) -> CaseResult {
     check(src, &list, &c.target, false, rec)
 }
 
+// ---------------------------------------------------------------------------------------------
+// sources whose selected subtable has more than 65 536 mappings (deterministic)
+
+const LARGE_ITEMS: u64 = 9;
+
+fn check_large(i: u64, rec: &mut Rec) -> CaseResult {
+    let n_glyphs = 40u16;
+    let gid = |k: u32| -> u16 { 1 + (k.wrapping_mul(7) % (n_glyphs as u32 - 1)) as u16 };
+    let (name, pe, sub): (&str, (u16, u16), Vec<u8>) = match i / 3 {
+        0 => ("large:f10,first=0x20,numChars=70000", (0, 4), enc::format10_raw(0x20, &(0..70_000u32).map(gid).collect::<Vec<u16>>())),
+        1 => ("large:f10,astral,numChars=66000", (3, 10), enc::format10_raw(0x10000, &(0..66_000u32).map(gid).collect::<Vec<u16>>())),
+        _ => {
+            // 70 000 single-code groups
+            let groups: Vec<(u32, u32, u32)> = (0..70_000u32).map(|k| (0x3000 + k + (k / 50_000) * 0x1000, 0x3000 + k + (k / 50_000) * 0x1000, gid(k) as u32)).collect();
+            let groups: Vec<(u32, u32, u32)> = groups.into_iter().filter(|g| char::from_u32(g.0).is_some()).collect();
+            ("large:f12,70000-groups", (3, 10), enc::format12_raw(&groups))
+        }
+    };
+    let target = match i % 3 {
+        0 => Target::Plain,
+        1 => Target::PrinceUnrestricted,
+        _ => Target::PrinceMacRoman,
+    };
+    let dry = [0u32; 0];
+    let mut ch = Chooser::new(&dry);
+    let cmap = enc::cmap_table(&[(pe.0, pe.1, 0)], &[sub], &mut ch);
+    let mut bf = BasicFont::with_glyphs(n_glyphs);
+    bf.extra.push((*b"cmap", cmap));
+    let src = match read_source(name, bf.build()) {
+        Ok(s) => s,
+        Err(e) => panic!("large source not readable by the reference reader: {}", e),
+    };
+    assert!(src.table.len() > 65_536, "large source has only {} mappings", src.table.len());
+    rec.class(name);
+    // three glyphs, among them the one of the very last entries
+    let last = *src.table.values().last().unwrap();
+    let mut list = vec![0u16, 3, 17, last];
+    list.dedup();
+    if i % 2 == 1 {
+        list.swap(1, 2);
+    }
+    check(&src, &list, &target, true, rec)
+}
+
 impl Property for C08 {
     fn id(&self) -> &'static str {
         "C08"
@@ -993,6 +1037,7 @@ impl Property for C08 {
     fn run(&self, ctx: &mut Ctx) {
         let n = ctx.cases(24_000, 1_500_000);
         ctx.section("generated", n, gen_case(), |c, rec| check_gen(c, rec));
+        ctx.enumerate("large-sources", LARGE_ITEMS, false, |i, rec| check_large(i, rec));
         let n = ctx.cases(6_000, 300_000);
         ctx.section(
             "fixtures",
